@@ -83,13 +83,14 @@ type typesTx = types.Transaction
 type World struct {
 	*Keyring
 
-	mu      sync.RWMutex
-	byHash  map[common.Hash]*FBlock
-	byRoot  map[common.Hash]*FBlock
-	head    *FBlock
-	counter uint64
-	hi      [nAccounts]uint64 // highest chain nonce any block has reached per account
-	feed    event.Feed
+	mu         sync.RWMutex
+	byHash     map[common.Hash]*FBlock
+	byRoot     map[common.Hash]*FBlock
+	head       *FBlock
+	counter    uint64
+	hi         [nAccounts]uint64  // highest chain nonce any block has reached per account
+	headNonces map[[2]uint64]bool // (account, chain nonce) pairs of every block that has been the head
+	feed       event.Feed
 }
 
 func NewWorld() *World {
@@ -217,7 +218,20 @@ func (w *World) Extend(parent *FBlock, gasLim uint64, cands []ATx, credits [nAcc
 func (w *World) SetHead(b *FBlock) {
 	w.mu.Lock()
 	w.head = b
+	if w.headNonces == nil {
+		w.headNonces = map[[2]uint64]bool{}
+	}
+	for i, a := range b.st {
+		w.headNonces[[2]uint64{uint64(i), a.Nonce}] = true
+	}
 	w.mu.Unlock()
+}
+
+// WasHeadNonce: did some block that has been the head give account i the chain nonce n?
+func (w *World) WasHeadNonce(i int, n uint64) bool {
+	w.mu.RLock()
+	defer w.mu.RUnlock()
+	return w.headNonces[[2]uint64{uint64(i), n}]
 }
 
 func (w *World) Head() *FBlock {
